@@ -40,6 +40,13 @@ ProbeWritten(s, l, r) ==
     LET d == Dest(s, l, r)
     IN Open(s, d) \o (IF HasClosed(s, d) /\ r # Warn /\ Emits(s, l, Warn) THEN Open(s, Dest(s, l, Warn)) ELSE <<>>)
 
+TsOK(s, l, fits) == \E j \in DOMAIN fits : fits[j][2] = TsZone(s, l) /\ fits[j][1] \in TsLayouts(s, l)
+\* the records of a nested pair: each goes to its own logger's destinations, whole, in that logger's shape, with
+\* that logger's timestamp - whatever the other one is doing at the moment
+NestOK(s, l, recs) ==
+    /\ SameBag([x \in DOMAIN recs |-> recs[x].w], Open(s, Dest(s, l, Info)))
+    /\ \A x \in DOMAIN recs : recs[x].whole /\ recs[x].shape = Fmt(s.cfg[l]) /\ TsOK(s, l, recs[x].fits)
+
 ObsLoggerOK(s, l, o) ==
     /\ Has(o, "json") => o.json = s.cfg[l].json
     /\ Has(o, "color") => o.color = s.cfg[l].color
@@ -80,6 +87,7 @@ ObsMatch(s, e, s2) ==
     /\ Has(e, "ret") => e.ret = Ret(s, e, s2)
     /\ Has(e, "dbg") => e.dbg = s2.dbg
     /\ (e.op = "Register" /\ Has(e, "ok")) => e.ok = RegOK(s, e)
+    /\ (e.op = "LogNest" /\ Has(e, "nest")) => NestOK(s2, e.l, e.nest.outer) /\ NestOK(s2, e.a, e.nest.inner)
     \* Close() of a destination list: every LogWriter among the members is closed once per occurrence
     /\ (e.op = "CloseW" /\ Has(e, "closed")) => SameBag(e.closed, Closers(Dest(s, e.l, e.a)))
     /\ Has(e, "deflvl") => e.deflvl = s2.deflvl
